@@ -78,7 +78,7 @@ ReadClauses(c) ==
       changed == \E k \in 1..Len(c.since) : Relevant(HS(c.since[k].pre), p, c.since[k].m) /\ MayNotify(HS(c.since[k].pre), c.since[k].m)
   IN (IF c.ret = PropValue(c.post, p) THEN {} ELSE {"C12-stale-read"})
      \cup (IF c.runs > 1 THEN {"C12-getter-ran-more-than-once"} ELSE {})
-     \cup (IF p = "csnap" /\ c.first = 0 /\ ~changed /\ c.runs # 0 THEN {"C12-cached-getter-ran-without-relevant-change"} ELSE {})
+     \cup (IF p \in CachedProps /\ c.first = 0 /\ ~changed /\ c.runs # 0 THEN {"C12-cached-getter-ran-without-relevant-change"} ELSE {})
 Clauses(c) ==
   IF c.m.t = "read" THEN ReadClauses(c) ELSE
   \* the pool is replaced by a pickle / deep copy of itself: same heap, dynamic registrations gone
@@ -91,7 +91,7 @@ Clauses(c) ==
   \* the owner of a bound-method handler was collected: from now on that handler is never called (c.regs2 omits it)
   IF c.m.t = "drop_owner" THEN (IF c.exc = "" /\ c.alive = 0 THEN {} ELSE {"C09-handler-owner-kept-alive"}) \cup ProbeClauses(c) ELSE
   IF c.m.t \notin {"observe", "unobserve"} /\ Inapplicable(c) THEN {} ELSE
-  LET loop == c.m.t \in {"child", "kidsassign", "kids", "dassign", "d", "sassign", "s", "dlassign", "dl", "dlin"} /\ OnCycle(HS(c.pre), c.m.x)
+  LET loop == c.m.t \in {"child", "kidsassign", "kids", "dassign", "d", "sassign", "s", "dlassign", "dl", "dlin", "del"} /\ OnCycle(HS(c.pre), c.m.x)
       base == (IF c.m.t \in {"observe", "unobserve"} THEN RegClauses(c) ELSE MutClauses(c))
               \cup ProbeClauses(c)
               \cup (IF c.regs2 = <<>> /\ c.dropped = 0 /\ c.census2 # c.census0 THEN {"C09-notifiers-not-back-to-baseline"} ELSE {})
